@@ -1,13 +1,16 @@
-"""C06 — amounts: currency precision table (Kani, all 26^3 codes)."""
+"""C06 — amounts: currency precision table (Kani, all 26^3 codes) and the language of accepted amount texts (source level)."""
 import e1
+import e2misc
 
 
 def run(tier, seed, ev, jobs):
-    ev.outside.append("str::parse::<f64> and {:.N} formatting are not reachable by either engine on this code base: the accept-only-decimals and "
-                      "value-preservation halves of C06 are not decided; only the ISO-4217 precision table and the currency shape/commodity "
-                      "checks are")
-    return e1.run_e1("C06", tier, seed, ev, jobs)
+    rc = e2misc.run_fmt("C06", ev, "amount")
+    ev.outside.append("the numeric value (str::parse::<f64> result, {:.N} formatting): value preservation across serialising and re-parsing "
+                      "is not decided; the language of accepted amount texts, the ISO-4217 precision table and the currency shape / "
+                      "commodity checks are")
+    return e1.combine(rc, e1.run_e1("C06", tier, seed, ev, jobs))
 
 
 def replay(path):
-    return e1.replay_file(path)
+    r = e2misc.replay_file(path)
+    return r if r is not None else e1.replay_file(path)
